@@ -4,7 +4,7 @@ A unit is tagged with a property when the property's statement talks about the s
 usage: retag.py [--dry]"""
 import re, glob, sys
 STAGE_PROPS = {
- 'target':  'C01 C02 C03 C13 C18',
+ 'target':  'C01 C02 C03 C13 C17 C18',
  'gen':     'C01 C02 C07 C13 C17 C19',
  'iter':    'C01 C04',
  'cache':   'C01 C05 C07 C11 C13',
@@ -24,7 +24,7 @@ STAGE_PROPS = {
  'socks':   'C08 C09',
  'docker':  'C08 C10',
  'elastic': 'C08 C10',
- 'iface':   'C17',
+ 'iface':   'C17 C05',
 }
 RULES = [  # (package regex, function regex, stage)
  (r'pkg/ip', r'ParseIPNet', 'target'),
